@@ -632,6 +632,16 @@ def _crop_corner_centered_mask(mask: torch.Tensor, bf_mask_padding_px: int):
     ys, xs = torch.where(mask_c)
 
     px = bf_mask_padding_px
-    y0, y1 = ys.min() - px, ys.max() + px + 1
-    x0, x1 = xs.min() - px, xs.max() + px + 1
+
+    def _bounds(lo, hi, n):
+        # crop symmetrically about the zero frequency (index n // 2 after fftshift) so that it
+        # stays the zero frequency after ifftshift; keep the full axis if that does not fit
+        c = n // 2
+        r = max(c - int(lo), int(hi) - c) + px
+        if c - r < 0 or c + r + 1 > n:
+            return 0, n
+        return c - r, c + r + 1
+
+    y0, y1 = _bounds(ys.min(), ys.max(), mask_c.shape[0])
+    x0, x1 = _bounds(xs.min(), xs.max(), mask_c.shape[1])
     return torch.fft.ifftshift(mask_c[y0:y1, x0:x1])
